@@ -112,6 +112,8 @@ def gen_case(rnd, tier, index):
     # (outputs=None: every formula cell is checked, reachability does not come into it)
     knobs['computed_refs'] = wrnd.random() < 0.3
     spec = wbgen.generate(wrnd, knobs)
+    if wrnd.random() < 0.12:
+        wbgen.add_alias_gadget(wrnd, spec)     # cells with coordinates inside a range of another sheet
     # known finding KF2: with iterative calculation validate_calcs recalculates the precedents
     # of the cell it checks, which destroys their stored results before they are compared.
     # Only the workbooks with group % 10 == 3 are compiled in iterative mode (re-confirmation).
